@@ -582,7 +582,7 @@ func formCase(c *ctx, sub uint64, bad bool, class string) {
 		toks, err := reparse(p.out)
 		if err == nil && !dup {
 			// layer 2: the model's encoder must print what a decoder sees
-			r.Line("fenc "+jt+" "+fd.enc(), common.EncToks(toks))
+			r.Line("fenc "+jt+" "+fd.enc(), common.EncToks(canonOrder(toks)))
 		}
 		var back form.Data
 		pan, derr := safeUnmarshal(p.out, &back)
@@ -703,7 +703,7 @@ func formCase(c *ctx, sub uint64, bad bool, class string) {
 	}
 	toks, err := reparse(sp.out)
 	if err == nil && !dup {
-		r.Line(fmt.Sprintf("fsub %s %s %s", jt2, fd.enc(), opsEnc), strings.Join(setRes, "")+"x "+common.B(subOK)+" "+common.EncToks(toks))
+		r.Line(fmt.Sprintf("fsub %s %s %s", jt2, fd.enc(), opsEnc), strings.Join(setRes, "")+"x "+common.B(subOK)+" "+common.EncToks(canonOrder(toks)))
 	}
 	var back form.Data
 	pan, derr := safeUnmarshal(sp.out, &back)
